@@ -19,7 +19,7 @@ def corpus(tier, seed):
     ws = [w for w in c08.witnesses(tier, seed, 'sse2') if not (w.params or {}).get('or_group') and 'mask' not in w.family]
     W += ws[(seed + 2) % step::step]
     for mod in (c10, c11, c12, c13):
-        ws = [w for w in mod.witnesses(tier, seed) if w.params.get('n', 99) <= 5]
+        ws = [w for w in mod.witnesses(tier, seed) if w.params.get('n', 99) <= 5 and not in_open_finding_family(w)]
         W += ws[::max(1, len(ws) // (6 if tier == 'quick' else 30))]
     return group_sort(W)
 
